@@ -841,7 +841,7 @@ class ReadInterp(Interp):
             self.consumed = self.consumed + Poly.const(prim)
             self.reads.append(("call", res, [("read_exact", str(prim))], sym[0]))
             return g_val(sym)
-        if res == "common::utils::read_bytes":
+        if res in ("common::utils::read_bytes", "common::utils::read_string"):       # read_string = read_bytes + validation (H-utf8 / T-prims)
             for a in args:
                 self.eval_quiet(fr, a)
             sym = self.fresh("n")
